@@ -65,29 +65,42 @@ def specAreaBox (areas : IRaster) (v : Int) : Option Box := specBox (areaCells a
 def specEscaped (inf areas : IRaster) (cells : List Cell) : Bool :=
   (presentCells inf cells).any fun c => areas.at c.1 c.2 == 0
 
-/-- Distance of cell `c` to side `d` of box `b`, integer resolutions. -/
-def sideDist (b : Box) (ns ew : Int) (c : Cell) : Dir → Int
-  | .N => (c.1 - b.n) * ns
-  | .S => (b.s - c.1) * ns
-  | .E => (b.e - c.2) * ew
-  | .W => (c.2 - b.w) * ew
+/-- Exact distance of cell `c` to side `d` of box `b`: rows x `ns`, columns x `ew`. -/
+def sideDist (b : Box) (ns ew : Rat) (c : Cell) : Dir → Rat
+  | .N => ((c.1 - b.n : Int) : Rat) * ns
+  | .S => ((b.s - c.1 : Int) : Rat) * ns
+  | .E => ((b.e - c.2 : Int) : Rat) * ew
+  | .W => ((c.2 - b.w : Int) : Rat) * ew
   | .none => 0
 
 def fourDirs : List Dir := [.N, .S, .E, .W]
 
-/-- `(d, dir)` is the report of a nearest infected cell: `dir` is enabled, some infected cell is
-    at distance `d` from side `dir` of its own area's box, and no infected cell is closer than `d`
-    to any enabled side of its own area's box. -/
-def nearestOK (inf areas : IRaster) (cells : List Cell) (dirs : Dirs) (ns ew : Int) (d : Int)
+/-- All (exact distance, side) pairs the report is chosen from: for every infected listed cell, in
+    list order, every enabled side (in the order N, S, E, W) of the bounding box of the cell's own
+    area. -/
+def nearestCandidates (inf areas : IRaster) (cells : List Cell) (dirs : Dirs) (ns ew : Rat) :
+    List (Rat × Dir) :=
+  (presentCells inf cells).flatMap fun c =>
+    match specAreaBox areas (areas.at c.1 c.2) with
+    | some b => (fourDirs.filter dirs.enabled).map fun d => (sideDist b ns ew c d, d)
+    | none => []
+
+/-- `(d, dir)` is the report of a nearest infected cell, for any resolutions: `dir` is enabled, and
+    some infected cell's exact distance `x` to side `dir` of its own area's box is minimal over all
+    infected cells and all enabled sides of their own areas' boxes, and `d` is `x` rounded
+    (`lround`). -/
+def nearestOK (inf areas : IRaster) (cells : List Cell) (dirs : Dirs) (ns ew : Rat) (d : Int)
     (dir : Dir) : Bool :=
   dirs.enabled dir &&
   ((presentCells inf cells).any fun c =>
     match specAreaBox areas (areas.at c.1 c.2) with
-    | some b => sideDist b ns ew c dir == d
-    | none => false) &&
-  ((presentCells inf cells).all fun c =>
-    match specAreaBox areas (areas.at c.1 c.2) with
-    | some b => fourDirs.all fun d' => !dirs.enabled d' || decide (d ≤ sideDist b ns ew c d')
+    | some b =>
+      lround (sideDist b ns ew c dir) == d &&
+      ((presentCells inf cells).all fun c' =>
+        match specAreaBox areas (areas.at c'.1 c'.2) with
+        | some b' => fourDirs.all fun d' =>
+            !dirs.enabled d' || decide (sideDist b ns ew c dir ≤ sideDist b' ns ew c' d')
+        | none => false)
     | none => false)
 
 def sumR : List Rat → Rat
